@@ -1,11 +1,22 @@
-"""C11 (one clause): algorithm equality, hashing and lookup by OID are mutually consistent."""
+"""C11: key loading keeps identity and algorithm (engine M, ring back end as environment); algorithm equality / hash / lookup (engine K)."""
 import c02_units as u
+import mir_check
+
+
+def run_mir(tier, seed):
+    import keyload
+    return mir_check.run_obligations([keyload.ob_key_load])
 
 
 def spec(tier, seed):
     qs = u.alg_table_queries("c11") + u.from_oid_queries("c11", tier)
-    return {"queries": qs, "exhaustive": True,
-            "bounds": "the six entries of the public algorithm table (ring build order) pairwise; from_oid on every OID of 0..8 arcs with symbolic u64 arcs",
-            "outside": "every save/load/round-trip clause of C11 (key generation, PKCS#8/SEC1/PKCS#1 parsing, detection cascade, signatures): ring / aws-lc-rs "
-                       "FFI, not encodable; the aws-lc-rs-only P-521 entry; Debug names",
-            "assumptions": ["the hasher-input comparison uses a recording Hasher (sequence of written words)"]}
+    return {"queries": qs, "mir": run_mir, "exhaustive": True,
+            "bounds": "loading (engine M): the MIR of KeyPair::from_pkcs8_der_and_sign_algo, from_der_and_sign_algo and TryFrom<&PrivateKeyDer> (default "
+                      "features = ring) for every one of the seven algorithm labels, arbitrary verdicts of ring's key parsers and the three key forms: every "
+                      "Ok path is labelled as requested / as the first accepting parser in the order Ed25519, P-256, P-384, RSA, was produced by that "
+                      "algorithm's parser with its curve / padding constant, and stores the input document. Tables (engine K): the six entries of the public algorithm table (ring build order) pairwise; from_oid on every OID of 0..8 arcs with symbolic u64 arcs",
+            "outside": "what ring's parsers and signers do (environment: arbitrary Result per call), hence that signatures verify and that a document parses "
+                       "under exactly one algorithm; key generation and export; SubjectPublicKeyInfo::from_der; the aws-lc-rs back end (not in the "
+                       "default-features MIR) with its SEC1 / PKCS#1 forms and P-521; PEM decoding; Debug names",
+            "assumptions": ["engine M: ring key parsers return arbitrary Results (contracts in mirsmt/keyload.py); MIR of the default-features build",
+                            "the hasher-input comparison uses a recording Hasher (sequence of written words)"]}
